@@ -200,7 +200,7 @@ theorem inv_addEdge' (d : Diagram) (s t : Node) (h : d.Inv) : (d.addEdge' s t).1
           split_ifs <;> simp_all [List.tail_suffix]
       by_cases hd : s.dimAt i = t.dimAt j
       · simpa [h1, h2, hd] using key _
-      · simpa [h1, h2, hd] using key _
+      · simpa [h1, h2, hd] using hl
 
 /-- **T05.2** every diagram reachable by any sequence of `add_node` / `add_edge` calls (failing
     edges included) satisfies the bookkeeping invariant -/
